@@ -8,6 +8,8 @@ CONSTANTS
  MaxFaults = 3
  MaxSeeks = 1
  Conc = 2
+ LinkEntries = FALSE
+ Directs = {"none"}
  StoreAnchor = TRUE
  RelNR = TRUE
  FixLeak = TRUE
